@@ -330,6 +330,49 @@ impl<const N: usize> Rig<N> {
         if class != 1 { self.subs.clear(); }
     }
 
+    /// C01 / C03 / C04 / C07 (kinds 111, 169): a submission during which the heap refuses the allocation of the indirect
+    /// table (a fault at a particular point). Line 111 = the call itself against the model (`add_af`: a panic out of an
+    /// untouched queue when the table is wanted, the ordinary `add` otherwise); line 169 = MONITOR
+    /// [buffers; queue size; class; the refused allocation was reached; shares; private and device-visible state unchanged;
+    ///  every other outstanding chain still reads as before].
+    pub fn add_alloc_fail(&mut self, ctx: &mut Ctx, lens_in: &[usize], lens_out: &[usize]) {
+        let n = lens_in.len() + lens_out.len();
+        let ins: Vec<Box<[u8]>> = lens_in.iter().map(|l| ctx.rng.bytes(*l).into_boxed_slice()).collect();
+        let mut outs: Vec<Box<[u8]>> = lens_out.iter().map(|l| vec![0u8; *l].into_boxed_slice()).collect();
+        let mut ids = vec![];
+        for _ in 0..n { ids.push(self.next_id); self.next_id += 1; }
+        let snap_before = if N <= 64 { Some(self.q.verif_snapshot()) } else { None };
+        let vis_before = (hal::dev_read(self.a.desc, 16 * N).ok(), hal::dev_read(self.a.drv, 4 + 2 * N + 2).ok());
+        let walks_before: Vec<(Vec<u128>, Vec<u16>)> = self.subs.iter().map(|s| self.device_walk(s.token)).collect();
+        let mark = hal::log_len();
+        let (r, hit) = {
+            let in_refs: Vec<&[u8]> = ins.iter().map(|b| &b[..]).collect();
+            let mut out_refs: Vec<&mut [u8]> = outs.iter_mut().map(|b| &mut b[..]).collect();
+            let q = &mut self.q;
+            crate::falloc::arm(16 * n, 1);
+            let r = catch_unwind(AssertUnwindSafe(|| unsafe { q.add(&in_refs, &mut out_refs) }));
+            let hit = crate::falloc::disarm();
+            (r, hit)
+        };
+        let evs = hal::log_since(mark);
+        let shares = evs.iter().filter(|e| matches!(e, Ev::Share { .. })).count();
+        let same = snap_before.map(|sb| sb == self.q.verif_snapshot()).unwrap_or(true)
+            && vis_before == (hal::dev_read(self.a.desc, 16 * N).ok(), hal::dev_read(self.a.drv, 4 + 2 * N + 2).ok());
+        let walks_after: Vec<(Vec<u128>, Vec<u16>)> = self.subs.iter().map(|s| self.device_walk(s.token)).collect();
+        let others = walks_before == walks_after;
+        let head = match &r { Ok(Ok(h)) => *h as u128, _ => 0 };
+        let mut i = vec![0u128, lens_in.len() as u128, lens_out.len() as u128];
+        for (k, l) in lens_in.iter().chain(lens_out.iter()).enumerate() { i.extend([ids[k] as u128, *l as u128, 0]); }
+        let mut o = enc_result(&r, |h| *h as u128).to_vec();
+        o.extend(enc_qevents(&evs, head));
+        ctx.tr.line(111, &i, &o);
+        let class = match &r { Ok(Ok(_)) => 0u128, Ok(Err(_)) => 1, Err(_) => 2 };
+        ctx.tr.line(169, &[n as u128, N as u128, class, (hit > 0) as u128, shares as u128, same as u128, others as u128], &[1]);
+        ctx.tr.note(if hit > 0 { "add_table_alloc_refused" } else { "add_table_alloc_not_reached" });
+        // a submission that was accepted although the table could not be had has changed the queue under the feet of the model
+        if class == 0 { std::mem::forget(ins); std::mem::forget(outs); self.subs.clear(); }
+    }
+
     /// add with `n_in` readable and `n_out` writable buffers of the given lengths
     pub fn add(&mut self, ctx: &mut Ctx, lens_in: &[usize], lens_out: &[usize]) -> Option<u16> {
         let mut ins: Vec<Box<[u8]>> = lens_in.iter().map(|l| ctx.rng.bytes(*l).into_boxed_slice()).collect();
@@ -598,8 +641,15 @@ pub fn history<const N: usize>(ctx: &mut Ctx, flags: u8, start: u16, nops: usize
                 let tok = rig.subs[k].token;
                 if Some(tok) != right { rig.pop(ctx, k, tok); }
             }
-        } else if r < 95 {
+        } else if r < 94 || (r < 95 && !indirect) {
             rig.queries(ctx);
+        } else if r < 95 {
+            // the heap refuses the indirect table of this submission (indirect queues; two or more buffers)
+            let total = 2 + ctx.rng.below((N.min(6)) as u64) as usize;
+            let n_in = ctx.rng.range(0, total as u64) as usize;
+            let li: Vec<usize> = (0..n_in).map(|_| 1 + ctx.rng.below(max_buf as u64) as usize).collect();
+            let lo: Vec<usize> = (0..total - n_in).map(|_| 1 + ctx.rng.below(max_buf as u64) as usize).collect();
+            rig.add_alloc_fail(ctx, &li, &lo);
         } else if r < 96 {
             // more buffers than descriptors, with whatever is outstanding at this point
             let n = match ctx.rng.below(4) { 0 => N + 1, 1 => N + 2, 2 => 2 * N + 1, _ => if N <= 64 { 65536 + ctx.rng.below(N as u64 + 1) as usize } else { N + 1 } };
